@@ -12,6 +12,7 @@ import (
 	"sort"
 	"strconv"
 	"strings"
+	"sync/atomic"
 )
 
 // Case is one correspondence case: checker id followed by integers.
@@ -111,6 +112,7 @@ func NewTrace(path string) *Trace {
 }
 
 func (t *Trace) Emit(c *Case, strata ...string) {
+	bump()
 	t.w.Write(c.b)
 	t.w.WriteByte('\n')
 	t.n++
@@ -126,8 +128,14 @@ func (t *Trace) Emit(c *Case, strata ...string) {
 		t.sample = append(t.sample, s)
 	}
 }
-func (t *Trace) Stat(s string)         { t.stats[s]++ }
-func (t *Trace) StatN(s string, n int) { t.stats[s] += n }
+func (t *Trace) Stat(s string)         { t.stats[s]++; bump() }
+func (t *Trace) StatN(s string, n int) { t.stats[s] += n; bump() }
+
+// progress counter for the hang watchdog (main.go): every recorded operation and every finished case
+// advances it; an implementation call that never returns stops it
+var progress int64
+
+func bump() { atomic.AddInt64(&progress, 1) }
 
 func (t *Trace) Close(statsPath string) {
 	t.w.Flush()
